@@ -125,10 +125,26 @@ def run_split(task):
             res["truncated"] = True
             break
         model, tags = gen.gen_model(rnd, task.get("gen") or {"circuit": 0.0, "gcc_zero_cap": False})
+        large = it % 6 == 5
+        if large:
+            # a large planted model with a small search space, half of them behind 250-300 instantiated variables: the split
+            # variable and its shared domain then have indices beyond 8 bits and differ from each other
+            from framework.props import bigrun
+
+            big, plant = bigrun.gen_big(rnd, {"max_vars": 14, "circuit": 0.0})
+            model = bigrun.restrict(big, plant, rnd, rnd.randint(2, 4))
+            if it % 12 == 5:
+                model, plant = bigrun.pad_model(model, plant, rnd)
+            cnt("sampled.large_models")
         if not (1 <= O.model_points(model) <= 3000):
             continue
         expected = collections.Counter(O.brute(model))
         var = rnd.randrange(len(model["idx"]))
+        if large:
+            open_vars = [v for v in range(len(model["idx"])) if model["doms"][model["idx"][v]][0] <
+                         model["doms"][model["idx"][v]][1]]
+            if open_vars and rnd.random() < 0.8:
+                var = rnd.choice(open_vars)
         d = model["idx"][var]
         size = model["doms"][d][1] - model["doms"][d][0] + 1
         k = rnd.randint(1, size + 3)
